@@ -504,7 +504,7 @@ package dmap
 //@   requires #env: e != nil && e.fragment != nil && e.fragment.storage != nil && dm.config != nil
 //@   requires #samples: dm.config.lruSamples >= 1
 //@   requires #not_empty: e.fragment.storage.count > 0
-//@   atcall dmap\.DMap\)\.deleteOnCluster$ requires #the_victim_is_deleted_under_its_own_key [C10 C04]: e.fragment.storage.has[item.HKey] && key == e.fragment.storage.key[item.HKey]
+//@   atcall dmap\.DMap\)\.deleteOnCluster$ requires #the_victim_is_deleted_under_its_own_key [C10 C04]: e.fragment.storage.has[item.HKey] && arg1 == item.HKey && arg2 == e.fragment.storage.key[item.HKey] && arg3 == e.fragment
 //@   ensures #finds_a_victim [C10] internal: len(items) >= 1 && len(items) <= dm.config.lruSamples
 //@   ensures #samples_are_present [C10] internal: forall k int :: 0 <= k && k < len(items) ==> old(e.fragment.storage.has)[items[k].HKey] && items[k].LastAccess == old(e.fragment.storage.la)[items[k].HKey]
 //@   ensures #least_recent_of_samples [C10] internal: forall k int :: 0 <= k && k < len(items) ==> items[0].LastAccess <= items[k].LastAccess
